@@ -59,3 +59,40 @@ def entry_chains(run, models, tag):
     for ev, m in models.items():
         ok, why = m.entry_chain()
         run.ob(ok, "entry-chain|%s" % ev, "%s premise: the public function is strip whitespace -> Parser::new? -> parse()? -> eval(ast)? -> Ok(value), the value returned unchanged (no fast path, no cache, no post-processing)" % tag, "%s::%s" % (ev, ev), why)
+
+
+def _where(m, fn):
+    f = m.tb.fn(fn)
+    return "%s (%s)" % (f.key, f.file) if f else "%s::%s" % (m.ev, fn)
+
+
+def token_stream(run, models, tag):
+    """The parser sees exactly the tokenizer's tokens, one per get_next_token, starting at the first token of the given
+    text; the tokenizer reads exactly the characters of the given text.  Every table-based argument (what a token
+    means, which token follows which) stands on this."""
+    from . import thir as T
+    from .pat import M
+    for ev, m in models.items():
+        F = m.F
+        # get_next_token advances by exactly one token: current_token := tokenizer.next() (Err on None)
+        f = m.tb.fn("::parser::Parser::get_next_token")
+        t = m.tb.fn_term(f)
+        NT = ("call", "<Tokenizer<'_> as iter::Iterator>::next", ("field", ("param", "self"), "tokenizer"))
+        GET = ("|", ("match", NT, (("pvar", "Option::Some", ("bind", "?b")), ("var", "?b")), (("pvar", "Option::None"), ("return", ("Err",)))), ("try", ("lift", NT)))
+        SETP = ("set", ("field", ("param", "self"), "previous_token"), ("Some", ("field", ("param", "self"), "current_token")))
+        SETC = ("set", ("field", ("param", "self"), "current_token"), ("var", "?t"))
+        okg = M(("seq", ("let", "?t", GET), SETP, SETC, ("Ok", ("tuple",))), t) is not None or M(("seq", ("let", "?t", GET), SETC, ("Ok", ("tuple",))), t) is not None
+        run.ob(okg, "advance|%s" % ev, "%s premise (token stream): " % tag + "get_next_token replaces the current token by the next token of the input, exactly one per call", "%s (%s)" % (f.key, f.file), "" if okg else "UNRECOGNISED: " + T.show(t)[:300])
+        f = m.tb.fn("::parser::Parser::new")
+        t = m.tb.fn_term(f)
+        e = M(("seq", ("let", "?lx", ("call", "Lex.Tokenizer::new", ("param", "?ex"))), ("let", "?t", ("|", ("match", ("call", "<Tokenizer<'_> as iter::Iterator>::next", ("var", "?lx")), (("pvar", "Option::Some", ("bind", "?b")), ("var", "?b")), (("pvar", "Option::None"), ("return", ("Err",)))),
+                                                                                                   ("try", ("lift", ("call", "<Tokenizer<'_> as iter::Iterator>::next", ("var", "?lx")))))),
+               ("Ok", ("struct", "Parser::Parser", ("tokenizer", ("var", "?lx")), ("current_token", ("var", "?t")), ("previous_token", "_"), ("placeholder", "_")))), t)
+        run.ob(e is not None, "parser-new|%s" % ev, "%s premise (token stream): " % tag + "Parser::new tokenizes the given text and starts at its first token", "%s (%s)" % (f.key, f.file), "" if e is not None else "UNRECOGNISED: " + T.show(t)[:300])
+        ft = None
+        for k_, g_ in F.by_key.items():
+            if g_.evaluator == ev and k_.endswith("tokenizer::Tokenizer::new"):
+                ft = g_
+        tt = m.tb.fn_term(ft) if ft else None
+        okt = tt is not None and M(("struct", "Tokenizer::Tokenizer", ("expr", ("call", "<std::str::Chars<'_> as iter::Iterator>::peekable", ("call", "str::chars", ("param", "?x"))))), tt) is not None
+        run.ob(okt, "tokenizer-new|%s" % ev, "%s premise (token stream): " % tag + "the tokenizer reads the characters of the given text, all of them, in order", ft.key if ft else ev, "" if okt else "UNRECOGNISED: " + (T.show(tt)[:200] if tt else "Tokenizer::new not found"))
